@@ -1117,3 +1117,10 @@ where
         )
     }
 }
+
+// Verification hook (guarded, see src/lib.rs): contracts that need this module's private items.
+#[cfg(any(kani, debruijn_verif))]
+#[allow(dead_code, unused_imports, unused_macros, unused_variables, non_snake_case)]
+pub mod verif {
+    include!(concat!(env!("DEBRUIJN_VERIF_DIR"), "/kani/m_graph.rs"));
+}
